@@ -166,10 +166,26 @@ type World struct {
 }
 
 func (w *World) sortFn() iface.EntrySortFn {
+	if w.M.TimeHash {
+		return sortTimeThenHash
+	}
 	if w.ByHash {
 		return sorting.SortByEntryHash
 	}
 	return nil
+}
+
+// sortTimeThenHash: an application-defined ordering - Lamport time first, entry hash as the only
+// tie-breaker. A strict total order that is consistent with causality and differs from both built-in
+// orderings whenever two writers produce entries with equal times.
+func sortTimeThenHash(a, b iface.IPFSLogEntry) (int, error) {
+	if d := a.GetClock().GetTime() - b.GetClock().GetTime(); d != 0 {
+		if d < 0 {
+			return -1, nil
+		}
+		return 1, nil
+	}
+	return strings.Compare(a.GetHash().String(), b.GetHash().String()), nil
 }
 
 func defaultIO() *cbor.IOCbor {
@@ -230,7 +246,12 @@ func NewWorld(r *Run, p *Profile) *World {
 		LogID: "L", ctx: context.Background()}
 	w.St.OnFault = func(k string) { r.Fault(k) }
 	nrep := 2 + r.Choose("nrep", 4)
-	w.ByHash = r.Choose("ordering", 2) == 0
+	switch r.Choose("ordering", 3) {
+	case 0:
+		w.ByHash = true
+	case 2:
+		w.M.TimeHash = true
+	}
 	w.NW = 1 + r.Choose("nwriters", 4)
 	w.PayloadBin = r.Choose("payload-alphabet", 3) == 0
 	w.PCMode = r.Choose("pointer-mode", 3)
@@ -263,7 +284,7 @@ func NewWorld(r *Run, p *Profile) *World {
 		w.Nodes = append(w.Nodes, n)
 	}
 	w.Part = make([]int, nrep)
-	r.Logf("world nrep=%d byHash=%v writers=%d codec=%s bin=%v pcmode=%d faults=%+v", nrep, w.ByHash, w.NW, w.Codec, w.PayloadBin, w.PCMode, w.F)
+	r.Logf("world nrep=%d byHash=%v timeHash=%v writers=%d codec=%s bin=%v pcmode=%d faults=%+v", nrep, w.ByHash, w.M.TimeHash, w.NW, w.Codec, w.PayloadBin, w.PCMode, w.F)
 	return w
 }
 
